@@ -17,6 +17,8 @@
 package main
 
 import (
+	"context"
+	dsql "database/sql"
 	"fmt"
 	"math/rand"
 	"sort"
@@ -188,10 +190,11 @@ func (q qobj) inline(p int64) string { return strings.Replace(q.sql, "?", fmt.Sp
 // ---------- a history ----------
 
 type sessState struct {
-	s        *core.Sess
-	idx      int
-	prepared map[int]bool // SQL PREPARE done for object k
-	inTx     bool
+	s           *core.Sess
+	idx         int
+	prepared    map[int]bool // SQL PREPARE done for object k
+	apiPrepared map[int]bool
+	inTx        bool
 }
 
 type hist struct {
@@ -282,7 +285,7 @@ func newHist(r *core.Run, i int) *hist {
 	h := &hist{r: r, rnd: rnd, caseNo: i, eng: core.NewEng("d"), txOwner: -1, nextID: 100, feat: map[string]bool{}, freshVer: -1, hasIndex: map[string]bool{}, lastChange: "setup"}
 	ns := 1 + rnd.Intn(3)
 	for k := 0; k < ns; k++ {
-		h.sess = append(h.sess, &sessState{s: h.eng.NewSess(), idx: k, prepared: map[int]bool{}})
+		h.sess = append(h.sess, &sessState{s: h.eng.NewSess(), idx: k, prepared: map[int]bool{}, apiPrepared: map[int]bool{}})
 	}
 	h.m = &model{tabs: map[string]*mtable{
 		"t":    {cols: []string{"id", "v", "w"}, rows: map[int64][]cell{}},
@@ -649,7 +652,17 @@ func (h *hist) checkTables(sess int, ctxWhat string) bool {
 		h.r.Eval(1)
 		if !core.SameStrings(got, want) {
 			sig, known := h.classifyTableDiff(tb, got, want)
-			_ = known
+			if known && h.r.IsKnown(sig) {
+				// known finding: count it, adopt the engine's (first-iteration) values and go on with the history
+				h.r.Violation(sig, nil)
+				lc := h.lastLoop
+				for i := int64(0); i < lc.k; i++ {
+					h.m.tabs["plog"].rows[lc.base+i] = []cell{iv(lc.base + i), iv(lc.first)}
+				}
+				h.m.version++
+				h.lastLoop = nil
+				continue
+			}
 			h.r.Violation(sig, h.witness("full scan of "+tb+" in session "+fmt.Sprint(sess)+" differs from the reference model ("+ctxWhat+")",
 				map[string]any{"table": tb, "model": core.ClipStrings(want, 60), "engine": core.ClipStrings(got, 60), "session": sess}))
 			h.dead = true
@@ -668,7 +681,7 @@ type loopCall struct {
 func (h *hist) classifyTableDiff(tb string, got, want []string) (string, bool) {
 	// F40: the only wrong rows are plog rows written by the last p_loop call whose body evaluates an
 	// uncorrelated subquery, and every iteration recorded the count of the FIRST iteration.
-	if tb == "plog" && h.lastLoop != nil && h.loopVar != 1 && len(got) == len(want) {
+	if tb == "plog" && h.lastLoop != nil && h.loopVar != 2 && len(got) == len(want) {
 		lc := h.lastLoop
 		exp := map[string]bool{}
 		for i := int64(0); i < lc.k; i++ {
@@ -685,7 +698,7 @@ func (h *hist) classifyTableDiff(tb string, got, want []string) (string, bool) {
 			}
 		}
 		if all {
-			return fmt.Sprintf("proc-loop-uncorrelated-subquery-stale:v%d", h.loopVar), true
+			return "proc-loop-select-into-keeps-first-iteration-value", true
 		}
 	}
 	kind := "rows-differ"
@@ -730,8 +743,8 @@ func (h *hist) stepQuery(sess int) {
 	ss := h.sess[sess]
 	k := h.objs[rnd.Intn(len(h.objs))]
 	q := qobjs[k]
-	for h.txOwner >= 0 && strings.HasPrefix(q.sql, "CALL") {
-		// domain exclusion call-in-open-transaction (known finding): pick another object
+	for h.txOwner >= 0 && (strings.HasPrefix(q.sql, "CALL") || strings.Contains(q.sql, "vw_")) {
+		// domain exclusions call-in-open-transaction and view-query-in-open-transaction (known findings): pick another object
 		k = rnd.Intn(len(qobjs))
 		q = qobjs[k]
 	}
@@ -764,6 +777,17 @@ func (h *hist) stepQuery(sess int) {
 		ss.s.Exec(fmt.Sprintf("SET @p = %d", p))
 		res = ss.s.Exec(fmt.Sprintf("EXECUTE q%d USING @p", k))
 	case "api":
+		if len(h.sess) == 1 && !ss.apiPrepared[k] {
+			// what COM_STMT_PREPARE does; only in single-session histories (known finding
+			// prepare-pins-session-snapshot, via=domain)
+			h.logf(sess, "PREP: "+q.sql)
+			if _, err := ss.s.Eng.E.PrepareQuery(ss.s.Ctx(), q.sql); err != nil {
+				h.r.Inconclusive("api-prepare-failed")
+				return
+			}
+			ss.apiPrepared[k] = true
+			h.r.Count("api.explicit-prepare", 1)
+		}
 		h.logf(sess, fmt.Sprintf("API: %s ## %d", q.sql, p))
 		res = g10lib.Run(ss.s, q.sql, func(ctx *sql.Context) (sql.Schema, sql.RowIter, error) {
 			sch, it, _, err := ss.s.Eng.E.QueryWithBindings(ctx, q.sql, nil, intBinding(p), nil)
@@ -847,6 +871,8 @@ func main() {
 	c0 := verifhook.Counters()
 	n := r.N(400, 8000)
 	r.Parallel("hist", n, func(i int) { runHist(r, i) })
+	nw := r.N(60, 900)
+	r.Parallel("wire", nw, func(i int) { runWire(r, i) })
 	pinned(r)
 	c1 := verifhook.Counters()
 	for _, c := range []string{"rowexec.cachedresults.hit", "rowexec.cachedresults.fill", "plan.subquery.cache.hit", "plan.subquery.hashcache.hit"} {
@@ -961,4 +987,239 @@ func runHist(r *core.Run, i int) {
 	}
 }
 
-func pinned(r *core.Run) {}
+// ---------- wire family: several real connections, autocommit, model oracle only ----------
+
+type wconn struct {
+	db *dsql.DB
+}
+
+func wireDump(db *dsql.DB, tb string) []string {
+	ctx, cancel := context.WithTimeout(context.Background(), core.StmtTimeout)
+	defer cancel()
+	rows, err := db.QueryContext(ctx, "SELECT * FROM "+tb)
+	if err != nil {
+		return []string{"ERR:" + err.Error()}
+	}
+	defer rows.Close()
+	cols, _ := rows.Columns()
+	out := []string{}
+	for rows.Next() {
+		cells := make([]dsql.NullString, len(cols))
+		ptrs := make([]any, len(cols))
+		for i := range cells {
+			ptrs[i] = &cells[i]
+		}
+		if err := rows.Scan(ptrs...); err != nil {
+			return []string{"ERR:" + err.Error()}
+		}
+		parts := make([]string, len(cells))
+		for i, c := range cells {
+			if c.Valid {
+				parts[i] = c.String
+			} else {
+				parts[i] = "NULL"
+			}
+		}
+		out = append(out, strings.Join(parts, "|"))
+	}
+	sort.Strings(out)
+	return append([]string{"#" + strings.Join(cols, ",")}, out...)
+}
+
+func wireExec(db *dsql.DB, q string) error {
+	ctx, cancel := context.WithTimeout(context.Background(), core.StmtTimeout)
+	defer cancel()
+	_, err := db.ExecContext(ctx, q)
+	return err
+}
+
+// runWire: 2-3 connections to one server, every statement autocommitted and succeeding by
+// construction; after every step a randomly chosen connection must see exactly the model.
+func runWire(r *core.Run, i int) {
+	rnd := r.Rand("wire", i)
+	e := core.NewEng("d")
+	defer e.Close()
+	srv, db0, err := g10lib.StartServer(e, "")
+	if err != nil {
+		r.Inconclusive("server-start")
+		return
+	}
+	defer srv.Close()
+	conns := []*dsql.DB{db0}
+	nc := 2 + rnd.Intn(2)
+	for k := 1; k < nc; k++ {
+		db, err := srv.Open("root", "", "")
+		if err != nil {
+			r.Inconclusive("server-open")
+			return
+		}
+		conns = append(conns, db)
+	}
+	defer func() {
+		for _, c := range conns {
+			c.Close()
+		}
+	}()
+	m := &model{tabs: map[string]*mtable{"t": {cols: []string{"id", "v", "w"}, rows: map[int64][]cell{}}}}
+	var log []string
+	do := func(c int, q string) bool {
+		log = append(log, fmt.Sprintf("w%d: %s", c, q))
+		if err := wireExec(conns[c], q); err != nil {
+			r.Violation("wire:statement-failed-unexpectedly", map[string]any{"case": i, "history": log, "err": err.Error()})
+			return false
+		}
+		return true
+	}
+	if !do(0, createT) {
+		return
+	}
+	next := int64(0)
+	steps := 15 + rnd.Intn(25)
+	for st := 0; st < steps; st++ {
+		c := rnd.Intn(nc)
+		t := m.tabs["t"]
+		switch p := rnd.Intn(10); {
+		case p < 4 || len(t.rows) == 0:
+			next++
+			v, w := int64(rnd.Intn(5)), randW(rnd)
+			if !do(c, fmt.Sprintf("INSERT INTO t (id, v, w) VALUES (%d, %d, %s)", next, v, w)) {
+				return
+			}
+			t.rows[next] = []cell{iv(next), iv(v), w}
+			if t.col("x") >= 0 {
+				t.rows[next] = append(t.rows[next], iv(5))
+			}
+		case p < 7:
+			ids := make([]int64, 0, len(t.rows))
+			for k := range t.rows {
+				ids = append(ids, k)
+			}
+			sort.Slice(ids, func(a, b int) bool { return ids[a] < ids[b] })
+			id, nv := ids[rnd.Intn(len(ids))], int64(rnd.Intn(5))
+			if !do(c, fmt.Sprintf("UPDATE t SET v = %d WHERE id = %d", nv, id)) {
+				return
+			}
+			t.rows[id][1] = iv(nv)
+		case p < 9:
+			cv := int64(rnd.Intn(5))
+			if !do(c, fmt.Sprintf("DELETE FROM t WHERE v = %d", cv)) {
+				return
+			}
+			for k, row := range t.rows {
+				if row[1].v == cv {
+					delete(t.rows, k)
+				}
+			}
+		default:
+			if t.col("x") < 0 {
+				if !do(c, "ALTER TABLE t ADD COLUMN x INT DEFAULT 5") {
+					return
+				}
+				t.cols = append(t.cols, "x")
+				for k := range t.rows {
+					t.rows[k] = append(t.rows[k], iv(5))
+				}
+			} else {
+				if !do(c, "ALTER TABLE t DROP COLUMN x") {
+					return
+				}
+				t.cols = t.cols[:3]
+				for k := range t.rows {
+					t.rows[k] = t.rows[k][:3]
+				}
+			}
+		}
+		// observe on a random connection
+		oc := rnd.Intn(nc)
+		got, want := wireDump(conns[oc], "t"), m.dump("t")
+		r.Eval(1)
+		log = append(log, fmt.Sprintf("w%d: SELECT * FROM t", oc))
+		if !core.SameStrings(got, want) {
+			r.Violation("wire:table-state-differs-from-model:autocommit-multi-connection", map[string]any{"case": i, "history": log, "model": want, "engine": got, "observer": oc})
+			return
+		}
+		r.Distinct(fmt.Sprintf("wire|writer=%d|observer=%d|conns=%d|rows=%d", c, oc, nc, min(len(t.rows), 3)))
+	}
+	r.Count("wire.histories", 1)
+}
+
+// ---------- pinned witnesses of known findings ----------
+
+func pinned(r *core.Run) {
+	script := func(e *core.Eng, stmts ...string) map[string]*core.Sess {
+		ss := map[string]*core.Sess{}
+		for _, line := range stmts {
+			tag, q := line[:2], line[4:]
+			if ss[tag] == nil {
+				ss[tag] = e.NewSess()
+			}
+			ss[tag].Exec(q)
+		}
+		return ss
+	}
+	// 1. SELECT ... INTO inside a loop assigns only in the first iteration
+	{
+		e := core.NewEng("d")
+		ss := script(e, "s0: "+createT, "s0: "+createPlog, "s0: "+procLoop(1), "s0: INSERT INTO t VALUES (1, 2, 0), (2, 2, 0)", "s0: CALL p_loop(100, 2, 3)")
+		got := g10lib.Dump(ss["s0"], "plog")
+		want := []string{"#id,n", "100|3", "101|4", "102|5"}
+		r.Pinned("proc-loop-select-into-keeps-first-iteration-value", fmt.Sprintf("SELECT COUNT(*) INTO n re-executed by a WHILE loop keeps the first iteration's value: plog=%v, expected %v", got, want),
+			!core.SameStrings(got, want), map[string]any{"procedure": procLoop(1), "call": "CALL p_loop(100, 2, 3)", "plog": got, "expected": want})
+		e.Close()
+	}
+	// 2. CALL inside an open transaction discards the session's uncommitted writes
+	{
+		e := core.NewEng("d")
+		ss := script(e, "s0: "+createT, "s0: "+createU, "s0: "+procRead, "s0: INSERT INTO u VALUES (2, 2, 3)", "s0: START TRANSACTION",
+			"s0: INSERT INTO u (id, v, w) VALUES (101, 0, 2)", "s0: CALL p_read(2)")
+		got := g10lib.Dump(ss["s0"], "u")
+		want := []string{"#id,v,w", "101|0|2", "2|2|3"}
+		r.Pinned("call-in-open-transaction-discards-uncommitted-writes", fmt.Sprintf("after START TRANSACTION; INSERT INTO u ...; CALL p_read(2) the session no longer sees its own uncommitted row: u=%v, expected %v", got, want),
+			!core.SameStrings(got, want), map[string]any{"u": got, "expected": want})
+		e.Close()
+	}
+	// 3. a query on a view inside an open transaction commits it
+	{
+		e := core.NewEng("d")
+		ss := script(e, "s0: "+createT, "s0: CREATE VIEW vw AS SELECT v FROM t", "s0: INSERT INTO t VALUES (3, 1, NULL)", "s1: START TRANSACTION",
+			"s1: UPDATE t SET v = 3 WHERE id = 3", "s1: SELECT * FROM vw", "s1: ROLLBACK")
+		got := g10lib.Dump(ss["s0"], "t")
+		want := []string{"#id,v,w", "3|1|NULL"}
+		r.Pinned("view-query-in-open-transaction-commits", fmt.Sprintf("START TRANSACTION; UPDATE t ...; SELECT * FROM vw; ROLLBACK leaves the update in place: t=%v, expected %v", got, want),
+			!core.SameStrings(got, want), map[string]any{"t": got, "expected": want})
+		e.Close()
+	}
+	// 4. PrepareQuery (= COM_STMT_PREPARE) leaves a transaction open that pins the session's table snapshots
+	{
+		e := core.NewEng("d")
+		ss := script(e, "s0: "+createT, "s0: INSERT INTO t VALUES (1, 1, NULL)")
+		s1 := e.NewSess()
+		_, _ = s1.Eng.E.PrepareQuery(s1.Ctx(), "SELECT id, v FROM t WHERE id <> ?")
+		ss["s0"].Exec("INSERT INTO t VALUES (2, 2, NULL)")
+		got := g10lib.Dump(s1, "t")
+		want := []string{"#id,v,w", "1|1|NULL", "2|2|NULL"}
+		r.Pinned("prepare-pins-session-snapshot", fmt.Sprintf("session 1 prepares a statement on t, session 0 then commits a row, session 1's next statement does not see it (and its commit removes it for everyone): t=%v, expected %v", got, want),
+			!core.SameStrings(got, want), map[string]any{"t_seen_by_session1": got, "expected": want, "t_seen_by_session0_afterwards": g10lib.Dump(ss["s0"], "t")})
+		e.Close()
+	}
+	// 5. over the wire a failed autocommit statement leaves its transaction (and snapshots) open
+	{
+		e := core.NewEng("d")
+		s0 := e.NewSess()
+		s0.Exec(createT)
+		s0.Exec("INSERT INTO t VALUES (1, 1, NULL)")
+		srv, db, err := g10lib.StartServer(e, "")
+		if err == nil {
+			wireDump(db, "t")
+			ferr := wireExec(db, "INSERT INTO t VALUES (1, 9, 9)") // duplicate key
+			s0.Exec("INSERT INTO t VALUES (2, 2, NULL)")
+			got := wireDump(db, "t")
+			want := []string{"#id,v,w", "1|1|NULL", "2|2|NULL"}
+			r.Pinned("wire-failed-statement-keeps-transaction-open", fmt.Sprintf("connection A: INSERT fails (%v); another session commits a row; connection A's next SELECT does not see it: t=%v, expected %v", ferr, got, want),
+				ferr != nil && !core.SameStrings(got, want), map[string]any{"t_seen_by_connection": got, "expected": want})
+			db.Close()
+			srv.Close()
+		}
+		e.Close()
+	}
+}
